@@ -11,6 +11,10 @@ structure Answer where
   hasPrimal : Bool
   hasDual : Bool
   feasrelax : Bool := false
+  /-- number of intermediate / pool solutions the backend reports through `ReportIntermediateSolution` -/
+  nAlt : Nat := 0
+  /-- option `sol:stub` given (then each intermediate solution is written to `<solstub>N.sol`) -/
+  solStub : Bool := false
 deriving Repr
 
 end MpVerif.C10
